@@ -1549,6 +1549,7 @@ static void families(const std::string &prop, const std::string &tier)
               for (auto i : idx)
                 s.la.push_back(pool[i]);
               g_specs.push_back(s); });
+    const size_t n_main = g_specs.size();
     // (H) half-integer constants: ALL 3-subsets of {x, y, x+y, x-y} x {<=, >=} x {1/2, 3/2}: values and bounds whose
     // denominators share a factor, so that updates and pivots add and subtract non-coprime fractions
     {
@@ -1596,7 +1597,8 @@ static void families(const std::string &prop, const std::string &tier)
     }
     // (B) boxes: ALL 4-subsets of a reduced pool (x, y, x-y against 0 and 1 with <= and >=), so that a row with
     // coefficients of both signs is propagated while BOTH bounds of one of its variables are finite and each of the
-    // bounds involved has its own reason literal; one level shallower than the 3-atom networks
+    // bounds involved has its own reason literal; same depth as the 3-atom networks (a bound tightened twice, one level popped,
+    // then a lemma through the restored bound needs 4 steps: seed C09-4)
     {
       std::vector<LAtom> bp;
       for (auto &e : std::vector<std::vector<Q>>{{1, 0}, {0, 1}, {1, -1}})
@@ -1611,9 +1613,12 @@ static void families(const std::string &prop, const std::string &tier)
                 s.nlra = 2;
                 for (auto i : idx)
                   s.la.push_back(bp[i]);
-                s.depth = th ? 4 : 3;
+                s.depth = th ? 5 : 4;
                 g_specs.push_back(s); });
     }
+    // the special families first, the big pool last: under a deadline the run is cut off inside the pool, never before
+    // a special family has been explored
+    std::rotate(g_specs.begin(), g_specs.begin() + n_main, g_specs.end());
   }
   else if (prop == "C10")
   {
@@ -1655,6 +1660,7 @@ static void families(const std::string &prop, const std::string &tier)
               for (auto i : idx)
                 r.ra.push_back(pool[i]);
               g_specs.push_back(r); });
+    const size_t n_main = g_specs.size();
     // (R) relaxation networks: two bounds on a direct edge, a two-hop path whose length lies between them, a reverse
     // edge and an atom it decides together with the direct edge; every single binary clause over the six atoms, so that
     // several constraints are asserted inside one decision level and retracted together. Decisions assert atoms only
@@ -1785,6 +1791,8 @@ static void families(const std::string &prop, const std::string &tier)
                   r.ra.push_back(hp[i]);
                 g_specs.push_back(r); });
     }
+    // the special families first, the big pool last (see C09)
+    std::rotate(g_specs.begin(), g_specs.begin() + n_main, g_specs.end());
   }
   else if (prop == "C08")
   {
